@@ -1,6 +1,7 @@
 """C05 — conditionals, match and loops follow their documented control flow
 (structure of the emitted control flow; run-time values are not decided)."""
 from .lib import hir as H
+from .lib import decide as DT
 from .lib import e5run
 from .lib.e5 import Engine, St, Unsupported
 from .lib.vmarms import vm_arms
@@ -53,15 +54,23 @@ def pattern_arms(F, R, eng):
     if not R.anchor(C + "compile_match_expression", f):
         return None
     b = H.body_of(f)
-    ms = [m for m in H.walk(b) if m.get("k") == "match" and not H.is_try(m) and H.is_local(H.strip(m["scrut"]), "pattern_variant")]
+    ms = [m for m in H.walk(b) if m.get("k") == "match" and not H.is_try(m) and H.is_local(H.strip(m["scrut"])) and
+          any((v or "").startswith("parser::ast::expr::MatchPattern::") for a in m["arms"] for v in H.pat_variants(a["pat"]))]
     if not R.anchor("compile_match_expression: match on the pattern variant", len(ms) == 1):
         return None
     m = ms[0]
     res = {}
     ty = "parser::ast::expr::MatchPattern"
     pid = H.local_id(H.strip(m["scrut"]))
-    vec_ids = find_bind(b, "jump_body_v")
-    arm_ids = find_bind(b, "arm")
+    # by role, not by name: the vector the pattern arms push their jump positions on, and the loop variable whose
+    # `.patterns` the pattern loop iterates
+    vec_ids = sorted({H.local_id(H.strip(c["recv"])) for c in H.walk(m) if c.get("k") == "mcall" and c["m"] == "push" and H.local_id(H.strip(c["recv"])) is not None})
+    arm_ids = []
+    for x in H.walk(b):
+        if x.get("k") == "match" and x.get("src", "").startswith("ForLoop") and x["scrut"].get("k") == "call" and x["scrut"].get("args"):
+            it = H.strip(x["scrut"]["args"][0])
+            if it.get("k") == "field" and it.get("name") == "patterns" and H.local_id(H.strip(it["e"])) is not None:
+                arm_ids.append(H.local_id(H.strip(it["e"])))
     for var, _ in F.enum_variants(ty):
         st = St()
         st.h = Lin(1)
@@ -377,11 +386,20 @@ def run(F, R, tier):
             if body is not None and body.get("k") == "block" and body.get("stmts"):
                 first = body["stmts"][0].get("e")
                 det = H.render(first)[:160] if first else "?"
-                ok = bool(first) and first.get("k") == "if" and H.render(first["c"]) == "!first.matches_type(pattern_variant)" and H.diverges(first["t"]) and "v1::Err" in H.render(first["t"])
+                loop_var = [y["id"] for a2 in some for y in H.walk(a2["pat"]) if y.get("k") == "bind"]
+                ref_txt = ""
+                ok = False
+                if first and first.get("k") == "if":
+                    c0 = H.strip(first["c"])
+                    if c0.get("k") == "un" and c0.get("op") == "!" and H.strip(c0["e"]).get("k") == "mcall" and H.strip(c0["e"])["m"] == "matches_type":
+                        mc = H.strip(c0["e"])
+                        arg_is_loop_var = H.local_id(H.strip(mc["args"][0])) in loop_var
+                        rid = H.local_id(H.strip(mc["recv"]))
+                        inits = [x["init"] for x in H.walk(b) if x.get("k") == "let" and x.get("pat", {}).get("id") == rid and x.get("init") is not None]
+                        ref_txt = H.render(inits[0]) if len(inits) == 1 else H.render(mc["recv"])
+                        ok = arg_is_loop_var and H.diverges(first["t"]) and "v1::Err" in H.render(first["t"])
         R.ob("match-type-check", "each pattern is tested against the first pattern's type before anything is emitted for it; a mismatch is a compile error", ok, det, F.loc(mf))
-        fl = [x for x in H.walk(b) if x.get("k") == "let" and x.get("pat", {}).get("name") == "first"]
-        R.ob("match-type-check", "`first` is the first pattern of the first arm", len(fl) == 1 and H.render(fl[0]["init"]) == "match_expr.arms.first().unwrap().patterns.first().unwrap()",
-             H.render(fl[0]["init"]) if fl else "?", F.loc(mf))
+        R.ob("match-type-check", "the reference pattern is the first pattern of the first arm", ref_txt == "match_expr.arms.first().unwrap().patterns.first().unwrap()", ref_txt or "?", F.loc(mf))
         # arms in source order, scrutinee popped once per body
         al = [H.render(x["scrut"]["args"][0]) for x in H.walk(b) if x.get("k") == "match" and x.get("src", "").startswith("ForLoopDesugar")]
         R.ob("match-arm-order", "arms and patterns are compiled in source order", "match_expr.arms.iter().enumerate()" in al and "&arm.patterns" in al, str(al), F.loc(mf))
@@ -391,12 +409,14 @@ def run(F, R, tier):
     if R.anchor("Parser::parse_match_expr", pm):
         b = H.body_of(pm)
         txt = H.render(b)
-        ifs = [x for x in H.walk(b) if x.get("k") == "if" and H.render(x["c"]) == "def_arm"]
+        # the flag that records a written default arm: a bool local tested by an `if` whose else-branch appends an arm
+        ifs = [x for x in H.walk(b) if x.get("k") == "if" and H.is_local(H.strip(x["c"])) and "e" in x and
+               any(c.get("k") == "mcall" and c["m"] == "push" for c in H.walk(x["e"]))]
         ok = False
         det = ""
         if ifs and "e" in ifs[-1]:
             els = ifs[-1]["e"]
-            pushes = [c for c in H.walk(els) if c.get("k") == "mcall" and c["m"] == "push" and H.render(c["recv"]) == "arms"]
+            pushes = [c for c in H.walk(els) if c.get("k") == "mcall" and c["m"] == "push" and H.is_local(H.strip(c["recv"]))]
             structs = [x for x in H.walk(els) if x.get("k") == "struct"]
             names = [H.last(x["res"].get("path")) for x in structs]
             ctors = [H.last(c.get("ctor")) for c in H.walk(els) if c.get("k") == "call" and c.get("ctor")]
